@@ -423,7 +423,9 @@ func c08Variants() []c08Variant {
 		}
 	}
 	post := func(m func(el *etree.Element)) func() (*samlgen.Assertion, func(*etree.Element), string) {
-		return func() (*samlgen.Assertion, func(*etree.Element), string) { return samlgen.DefaultAssertion(), m, "idp1" }
+		return func() (*samlgen.Assertion, func(*etree.Element), string) {
+			return samlgen.DefaultAssertion(), m, "idp1"
+		}
 	}
 	signer := func(k string) func() (*samlgen.Assertion, func(*etree.Element), string) {
 		return func() (*samlgen.Assertion, func(*etree.Element), string) { return samlgen.DefaultAssertion(), nil, k }
@@ -451,7 +453,9 @@ func c08Variants() []c08Variant {
 		{"signed-by-attacker", signer("attacker")},
 		{"signed-by-encryption-use-key", signer("idpenc")},
 		{"tampered-nameid-after-signing", post(func(el *etree.Element) { el.FindElement("./Subject/NameID").SetText("admin@example.com") })},
-		{"tampered-attribute-after-signing", post(func(el *etree.Element) { el.FindElement("./AttributeStatement/Attribute/AttributeValue").SetText("admin") })},
+		{"tampered-attribute-after-signing", post(func(el *etree.Element) {
+			el.FindElement("./AttributeStatement/Attribute/AttributeValue").SetText("admin")
+		})},
 		{"comment-in-nameid", post(func(el *etree.Element) {
 			n := el.FindElement("./Subject/NameID")
 			tx := n.Text()
@@ -578,7 +582,9 @@ func c08SPSide(c *core.Ctx) {
 		}
 	}
 	base := harness.EncryptAssertionEl(goodPT, spKey(), "faults")
-	cv := func(ea *etree.Element) *etree.Element { return ea.FindElement("./EncryptedData/CipherData/CipherValue") }
+	cv := func(ea *etree.Element) *etree.Element {
+		return ea.FindElement("./EncryptedData/CipherData/CipherValue")
+	}
 	full, _ := base64.StdEncoding.DecodeString(cv(base).Text())
 	for n := 0; n <= 16*4+1; n++ {
 		n := n
@@ -639,7 +645,10 @@ func c08SPSide(c *core.Ctx) {
 	}
 	other := samlgen.Key("spother")
 	sops := []sop{
-		{"encryptedkey-removed", func(ea *etree.Element) { k := ea.FindElement("./EncryptedData/KeyInfo/EncryptedKey"); k.Parent().RemoveChild(k) }},
+		{"encryptedkey-removed", func(ea *etree.Element) {
+			k := ea.FindElement("./EncryptedData/KeyInfo/EncryptedKey")
+			k.Parent().RemoveChild(k)
+		}},
 		{"keyinfo-removed", func(ea *etree.Element) { k := ea.FindElement("./EncryptedData/KeyInfo"); k.Parent().RemoveChild(k) }},
 		{"encryptedkey-wrapped-to-other-cert", func(ea *etree.Element) {
 			k := ea.FindElement("./EncryptedData/KeyInfo/EncryptedKey")
@@ -653,8 +662,13 @@ func c08SPSide(c *core.Ctx) {
 		{"encrypteddata-duplicated", func(ea *etree.Element) { ea.AddChild(ea.FindElement("./EncryptedData").Copy()) }},
 		{"ciphervalue-not-base64", func(ea *etree.Element) { cv(ea).SetText("***") }},
 		{"cipherdata-removed", func(ea *etree.Element) { k := ea.FindElement("./EncryptedData/CipherData"); k.Parent().RemoveChild(k) }},
-		{"method-unknown", func(ea *etree.Element) { ea.FindElement("./EncryptedData/EncryptionMethod").CreateAttr("Algorithm", "urn:x") }},
-		{"method-removed", func(ea *etree.Element) { k := ea.FindElement("./EncryptedData/EncryptionMethod"); k.Parent().RemoveChild(k) }},
+		{"method-unknown", func(ea *etree.Element) {
+			ea.FindElement("./EncryptedData/EncryptionMethod").CreateAttr("Algorithm", "urn:x")
+		}},
+		{"method-removed", func(ea *etree.Element) {
+			k := ea.FindElement("./EncryptedData/EncryptionMethod")
+			k.Parent().RemoveChild(k)
+		}},
 		{"encryptedassertion-empty", func(ea *etree.Element) { ea.Child = nil }},
 	}
 	for _, o := range sops {
